@@ -580,6 +580,13 @@ def entries():
                    ('n1', 'mixed'), mism=('short-mask',)))
     L.append(E('get_cycle_vector [samples x imfs]', 'cycles', lambda d, v: (dict(phase=d['IP'].copy()), {}),
                lambda a, o: cycles.get_cycle_vector(a['phase'], return_good=False)))
+    # an UNWRAPPED phase (values beyond 2 pi): the routine wraps it internally - in a copy, the caller's array stays as it was
+    L.append(E('get_cycle_vector(unwrapped phase)', 'cycles',
+               lambda d, v: (dict(phase=(np.unwrap(d['IP'][:, 0])[:, None].copy() if v == 'n1' else np.unwrap(d['IP'][:, 0]).copy())), {}),
+               lambda a, o: cycles.get_cycle_vector(a['phase'], return_good=False), ('n1',)))
+    L.append(E('phase_align(unwrapped ip, cycles=None)', 'cycles',
+               lambda d, v: (dict(ip=np.unwrap(d['IP'][:, 0]).copy(), x=d['IF'][:, 0].copy()), {}),
+               lambda a, o: cycles.phase_align(a['ip'], a['x'], npoints=12)))
 
     def b_stat(d, v):
         a = dict(cycles=d['cv'].copy(), values=d['IF'][:, 0].copy())
